@@ -45,6 +45,8 @@ func init() {
 			{ID: "C11.R24", Text: "a re-open resumes from the stored checkpoints: openStream requests exactly the position in the map Load filled, read at call time (same rule as C12.R3)", Run: c12r3},
 			{ID: "C11.R25", Text: "a rebalance never terminates the client: only the application can ask for the shutdown — the public Close is neither called nor handed out as a function value anywhere in the module", Run: closeIsEntryPointOnly},
 			{ID: "C11.R26", Text: "the re-open after a rebalance finishes: openStream waits for nothing but its request (no slot, permit, lock or in-flight table in front of it) and reports success only after the request", Run: openDoesNotWait},
+			{ID: "C11.R27", Text: "callbacks are bracketed also with a zero delay: AfterRebalanceStart is announced before the re-open is armed", Run: rebalanceStartBeforeArm},
+			{ID: "C11.R28", Text: "a rebalance never terminates the client: the close stops the mitigation exactly when Open started it — both read the same switch at the time they run (same rule as C13.R20)", Run: sessionFlags},
 			{ID: "C11.R6", Text: "a repeated membership causes no notification (same rule as C10.R1)", Run: c10r1},
 			{ID: "C11.R7", Text: "the bus listener subscribed by the client calls Stream.Rebalance on every path (no notification is dropped while closed or reopening)", Run: c11r7},
 			{ID: "C11.R9", Text: "notifications are handled one at a time: the debounce test of Rebalance reads the balancing state before taking the lock, so every listener that reaches Stream.Rebalance is subscribed serialised (SubscribeAsync(…, transactional=true) or synchronous Subscribe)", Run: c11r9},
